@@ -8,6 +8,29 @@ sys.path.insert(0, HERE)
 from tools.manifest_table import CHECKS, NOT_APPLICABLE  # noqa: E402
 
 ALL = [f"C{i:02d}" for i in range(1, 21)]
+# monitors added in later rounds (DESIGN.md section 8a)
+THREADS = "; thread-stress shard (own component objects per thread, results vs single-thread references)"
+EXTRA = {
+    "C01": THREADS + "; the repository's own tests as a monitored workload; python -O shard; edit-and-rebuild cycles with re-used addresses (weak-reference monitor state)",
+    "C02": THREADS + "; copies (copy/deepcopy/pickle) of the objective objects; repository tests as monitored workload",
+    "C03": THREADS.replace("component objects", "instances") + "; instances built from stale Instance objects",
+    "C04": "; python -O shard; wrapped-extent corruption class; repository tests as monitored workload",
+    "C05": THREADS + "; every city count 2..320; stale Instance objects as constructor input; TSPLIB text entry point",
+    "C06": "; hostile process proxy (undefined create() contents); kernels driven directly at 2^11/2^12 cities",
+    "C07": THREADS + "; sign-flip neighbourhoods of feasible plans; every even team count 14..62",
+    "C08": "; every even team count 14..62; directed-trip matrices at storage-type edges",
+    "C09": THREADS + "; every facility count up to 132; 70 000-call life of one objective; shipped QAPLIB files re-parsed by an own reader",
+    "C11": "; runs terminated from outside during the model phase + post-state probe; deepcopy / pickle copies of objectives holding data",
+    "C12": "; fault injection on the clock (vlib/monitors/clockwarp.py: timers fire after a millionth of their interval) for the repetition of every run pair; result records for custom instances",
+    "C13": "; guard zones (0/1-filled) around every plain array of direct kernel calls in the compiled engines: changed zone = write outside, result depending on zone contents = read outside",
+    "C14": THREADS + "; thousands of simultaneously open bins with an expectation derived from the model on a reduced instance",
+    "C15": THREADS + "; one decode per team count 17..260 with a structural invariant",
+    "C16": "; short-lived systems handed to every controller factory (address re-use); digit-colliding ANN architectures",
+    "C17": "; clock fault injection on the hardness runs; one long-lived Hardness rating short-lived instances (address re-use, decoded unobserved); iterable executors",
+    "C18": "; same path rewritten with equal size and time stamps; decimal / exponent spellings in explicit sections; shipped coordinate files vs TSPLIB95",
+    "C19": "; python -O shards; tables mixing bin-bound selections; oracle-feasible layout variants through the text form; column scopes",
+    "C20": "; every object count 12..140; mixed int/float user distances; tag functions returning str / tuple / list / iterator / generator",
+}
 checks = []
 for pid in ALL:
     if pid not in CHECKS:
@@ -23,7 +46,7 @@ for pid in ALL:
         "level_claimed": {"category": "exploration", "text": c["text"],
                           "design_ref": c.get("ref", f"DESIGN.md section 3, {pid}")},
         "level_note": c["note"],
-        "technique": c["technique"],
+        "technique": c["technique"] + EXTRA.get(pid, ""),
     })
 na = [{"property_id": p, "reason": r} for p, r in NOT_APPLICABLE.items()]
 for pid in ALL:
